@@ -1,9 +1,9 @@
-SPECIFICATION Spec
+SPECIFICATION SpecClass
 CONSTANTS
-  Secrets = {"k1", "K64a", "K64b", "K32", "K33", "K16"}
-  Users = {"@alice:example.org", "@bob:example.org"}
+  Secrets = {"k1", "k2"}
+  Users <- ClassUsers
   Durations = {0}
-  Offsets <- OffsetsKeys
+  Offsets <- OffsetsClass
   MaxAlter = 0
   WideNeighbours = FALSE
 INVARIANTS TypeOK Sound Complete RevealsUser ReadThenValidate Emit
